@@ -14,6 +14,7 @@ func TestReplay_Front(t *testing.T) {
 	frontReplay("TestProp_C12_Ingress", runC12)
 	frontReplay("TestProp_C15_Publish", runC15)
 	frontReplay("TestProp_C18_Reload", runC18)
+	frontReplay("TestProp_C01_ProcessCrash", runC01Proc)
 	frontReplay("TestProp_C18_FileCrash", runC18File)
 	frontReplay("TestProp_C18_MgmtRollback", runC18Mgmt)
 	frontReplay("TestProp_C12_RateLimit", runC12RL)
